@@ -1,7 +1,7 @@
 SPECIFICATION MCSpec
 CONSTANTS CntChoices <- CntUnknown
           N = 3  EPS = 4  NF = 2  ROOT16 = TRUE  RS = 2  SPC = 2  Names = {"a", "b"}  MaxLen = 2  MaxOpen = 1
-          BugF1 = FALSE BugF2 = TRUE BugF3 = FALSE BugF9 = FALSE BugF18 = FALSE BugF15 = FALSE HintChoices = {0}
+          BugF1 = FALSE BugF2 = TRUE BugF3 = FALSE BugF9 = FALSE BugF18 = FALSE BugF15 = FALSE InfoModel = FALSE HintChoices = {0}
 INVARIANTS CrashSafe Durable WellFormed SpaceExact NoInvented FatCopiesEqual HintInRange
 VIEW MCView
 CHECK_DEADLOCK FALSE
